@@ -622,6 +622,32 @@ def rule_login(ctx):
                 detail = "kept for the next passive login=%s" % (len(flushed) == 1)
             ctx.check("C14.login", okf, w("onAuthed"), "authed passive=%s unsent=%s" % (passive, unsent),
                       "unsent keys must be flushed exactly on a passive login, handed over (a list the layer no longer holds afterwards, contents intact) with the reboot flag, and the layer's list cleared (%d flush call(s) on this login; %s)" % (n_first, detail), "flushed" if want else "nothing flushed")
+    # a history in which the store's answer changes between two connects (a key that was pending at the first connect has
+    # been consumed - its row is gone - before the second): what is flushed at the next passive login is what the store
+    # reports as unsent at THAT connect, each key once; a key remembered from the earlier connect must not be offered again
+    it, layer, called, flushed, call = scenario(True)
+    answers = [[("ext", "k1", []), ("ext", "k2", []), ("ext", "k3", [])], [("ext", "k1", []), ("ext", "k2", [])]]
+    asked = []
+
+    def keys_now(itp, e, args, kwargs, env, depth):
+        asked.append(1)
+        return ("list", list(answers[min(len(asked), len(answers)) - 1]))
+    it.hooks["builtin:__keys__"] = keys_now
+    try:
+        call("on_connected", [("obj", _event_obj(repo))])
+        call("on_disconnected", [("obj", _event_obj(repo))])       # the connection is lost before the login completes
+        call("on_connected", [("obj", _event_obj(repo))])
+        call("onAuthed", [authed_event(True)])
+        offered = None
+        if flushed:
+            a, kw, _l = flushed[-1]
+            lst = a[1] if len(a) > 1 else kw.get("prekeys")
+            offered = [x[1] if x[0] == "ext" else "?" for x in lst[1]] if lst is not None and lst[0] == "list" else None
+        ctx.check("C14.login", len(flushed) == 1 and offered is not None and sorted(offered) == ["k1", "k2"], w("on_connected"), "a pending key consumed between two connects",
+                  "the keys remembered at an earlier connect are offered again although the store no longer lists them: after connect (k1 k2 k3 pending) - connection lost - k3 consumed - connect (k1 k2 pending) - passive login, the upload offers %s; it must offer what the store reports at that connect, each key once" % (offered,),
+                  "the upload offers k1, k2 - what the store reports at the latest connect")
+    except _Raise as r:
+        ctx.undecided("C14.login", w("on_connected"), "a pending key consumed between two connects", "raised %s" % r.text)
     # first upload confirmed -> disconnect requested; the disconnect that follows switches passive off and reconnects, once
     def disc_effects(effs):
         sp = [e for e in effs if e[0] == "SETPROP" and e[1] == ("c", PASSIVE)]
